@@ -6,6 +6,8 @@
   ancestorsLast    LIBdescribe_entity emits the bases through python_base_order( supertypes )
   enumRenameInSchemaOk   the last case of ENUMcanBeProcessed (multpass_python.c): `inSchema( a, s ) || a->search_id == PROCESSED`
   typeRescan       SCOPEPrint (classes_wrapper_python.cc) repeats its scan over the defined types until none is skipped
+  (pinned, no constant) SCOPE_dfs / SCOPEget_entities_superclass_order (src/express/scope.c) are the marked post-order traversal
+                   the entity-order model describes, and SCOPEPrint takes the entities from it
   inheritedOnce    LIBdescribe_entity takes the inherited constructor parameters from ENTITYget_inherited_attributes_once
                    (each inherited attribute once) instead of ENTITYget_all_attributes of every supertype (once per path)
 """
@@ -77,6 +79,24 @@ def extract(repo):
         rescan = False
     else:
         raise ValueError("SCOPEPrint: unsupported control structure around the defined types")
+    sc = open(os.path.join(repo, "src/express/scope.c")).read()
+    i = sc.find("void SCOPE_dfs( Dictionary symbols, Entity root, Linked_List result ) {")
+    j = sc.find("Linked_List SCOPEget_entities_superclass_order( Scope scope ) {", i)
+    k = sc.find("\n}", j)
+    if i < 0 or j < 0 or k < 0:
+        raise ValueError("SCOPE_dfs / SCOPEget_entities_superclass_order not found in src/express/scope.c")
+    norm = lambda t: re.sub(r"\s+", " ", re.sub(r"//[^\n]*|/\*.*?\*/", "", t, flags=re.S)).strip()
+    dfs, sup = norm(sc[i:j]), norm(sc[j:k])
+    # mark first, then the supertypes defined in the scope, then append: post-order with marks (as modelled in GenPyEntityOrder.lean)
+    want = (r"if\( \( ENTITYget_mark\( root \) != ENTITY_MARK \) \) \{ ENTITYput_mark\( root, ENTITY_MARK \); "
+            r"LISTdo\( ENTITYget_supertypes\( root \), super, Entity \) if\( \( ent = \( Entity \)DICTlookup\( symbols, ENTITYget_name\( super \) \) \) != ENTITY_NULL \) \{ "
+            r"SCOPE_dfs\( symbols, ent, result \); \} LISTod LISTadd_last\( result, root \); \}")
+    if not re.search(want, dfs):
+        raise ValueError("SCOPE_dfs is no longer the marked post-order traversal the entity-order model describes")
+    if not re.search(r"\+\+ENTITY_MARK; SCOPEdo_entities\( scope, e, de \) SCOPE_dfs\( scope->symbol_table, e, result \); SCOPEod", sup):
+        raise ValueError("SCOPEget_entities_superclass_order no longer runs SCOPE_dfs once per entity of the scope under a fresh mark")
+    if "list = SCOPEget_entities_superclass_order( scope )" not in w:
+        raise ValueError("SCOPEPrint no longer takes the entities from SCOPEget_entities_superclass_order")
     lst = ", ".join('"%s"' % i for i in items)
     out = f"""-- GENERATED by tools/extract.d/genpy.py from src/exp2python/src/classes_python.c, classes_wrapper_python.cc
 namespace StepModel.Generated
